@@ -530,6 +530,8 @@ def mode_c07(emit, tier, rng, scenario_file):
                 continue
             kind, cfg, frs, sched, pooling, model = scenario_to_case(s)
             tid += 1
+            # runs[0] = the scenario's own (schedule, pooling) - compared with the model's groups; then the never-ejecting run
+            # and both again with the other pooling method
             emit(run_schedules(kind, cfg, frs, rng, tid, scheds=[sched] + ([None] if sched is not None else []),
                                poolings=(pooling, 1 - pooling), model=model))
     n = 400 if tier == 'quick' else 4000
